@@ -246,3 +246,38 @@ Definition serve_http (w : shape) (h : list bytes) (ons : option on_session)
                       end in
         mkserve (Some (topics, lei')) rs user server fine
   end.
+
+(* ---- specification vocabulary for ServeHTTP (from the property text) ------------- *)
+(* is there a writer that can flush anywhere in the Unwrap chain? *)
+Fixpoint can_flush (w : shape) : bool :=
+  match w with
+  | Shape fe fl u => fe || fl || match u with Some w' => can_flush w' | None => false end
+  end.
+
+(* the request's Last-Event-ID: the first value when present, non-empty and a single line *)
+Definition expected_lei (h : list bytes) : field :=
+  match h with
+  | v :: _ => match v with [] => None | _ => if no_nlb v then Some v else None end
+  | [] => None
+  end.
+
+(* the topics chosen by OnSession, DefaultTopic if none *)
+Definition expected_topics (ons : option on_session) : list bytes :=
+  match ons with
+  | Some o => match os_topics o with [] => [default_topic] | t => t end
+  | None => [default_topic]
+  end.
+
+Definition request_accepted (ons : option on_session) : bool :=
+  match ons with Some o => os_ok o | None => true end.
+
+(* did anything reach the client: a Write or a successful flush *)
+Definition sent_something (l : list wcall) : bool :=
+  existsb (fun c => match c with LWrite _ _ => true | LFlush e => (e =? 0)%N | _ => false end) l.
+
+(* the bytes a call is meant to put on the wire *)
+Definition call_wire (c : scall) : bytes :=
+  match c with
+  | CSend m => match wire m with Some w => w | None => [] end
+  | CFlush => []
+  end.
